@@ -1,3 +1,4 @@
+use std::collections::HashSet;
 use std::fs::{File, hard_link, read_dir, remove_file, rename};
 use std::ops::Bound;
 use std::path::PathBuf;
@@ -333,6 +334,19 @@ impl KeyValueStore {
     }
 
     pub fn write(&self, mut batch: WriteBatch) -> Result<(), SError> {
+        // Every entry of a batch gets the same timestamp, so a key may appear only once.  The last
+        // entry for a key is the one that takes effect.
+        let mut seen = HashSet::with_capacity(batch.entries.len());
+        let mut superseded = vec![];
+        for (idx, entry) in batch.entries.iter().enumerate().rev() {
+            if !seen.insert(entry.key.as_slice()) {
+                superseded.push(idx);
+            }
+        }
+        drop(seen);
+        for idx in superseded.into_iter() {
+            batch.entries.remove(idx);
+        }
         let (mut wait_guard, memtable, log) = {
             let mut state = self.state.lock().unwrap();
             let wait_guard = self.wait_list.link(());
